@@ -336,6 +336,14 @@ impl Case {
     }
 }
 
+fn fnv64(text: &str) -> u64 {
+    let mut h: u64 = 0xcbf29ce484222325;
+    for b in text.bytes() {
+        h ^= b as u64;
+        h = h.wrapping_mul(0x100000001b3);
+    }
+    h
+}
 fn keyset(c: &Cache) -> BTreeSet<u64> {
     c.keys().cloned().collect()
 }
@@ -418,7 +426,7 @@ fn is_clean(c: &Cache, case: &Case) -> bool {
 // executing one op line on the real code (returns the full op line incl. witness, and the output)
 // ---------------------------------------------------------------------------------------------
 fn strip_choice(ws: &[&str]) -> Vec<String> {
-    ws.iter().filter(|w| !w.starts_with("e:")).map(|s| s.to_string()).collect()
+    ws.iter().filter(|w| !w.starts_with("e:") && !w.starts_with("h:")).map(|s| s.to_string()).collect()
 }
 
 static RACE_FAILS: AtomicU64 = AtomicU64::new(0);
@@ -593,8 +601,11 @@ fn exec(case: &mut Case, dir: &PathBuf, line: &str, out: &mut Out) -> (String, S
                 for p in raw_after.peers() {
                     ev.remove(&p);
                 }
-                full = format!("{full} {}", show_choice(&ev));
                 let outl = format!("m={} n={} f={}", show_cache(&case.mem(i)), case.stores[i].peer_count(), raw_after.show());
+                // the flush evicts twice (in load_cache_data, then after the merge); only the second eviction is
+                // observable, so the digest of the output selects the tie-break of the first (the model must
+                // reproduce the output exactly under some legal tie-break)
+                full = format!("{full} {} h:{}", show_choice(&ev), fnv64(&outl));
                 let ok = r.is_ok();
                 let ties = case.ties;
                 orc_jobs.push(Box::new(move |o, c| {
@@ -956,7 +967,9 @@ fn canonical_ma(rng: &mut Rng, p: u64) -> String {
 }
 
 /// a crafted cache file in canonical syntax. wf: dialable shapes under the right key, no duplicates.
-/// Unless `ties`, every peer gets a distinct odd latest timestamp (store timestamps are even).
+/// Unless `ties`, every peer gets a distinct odd latest timestamp (store timestamps are even); ties can still
+/// arise after clean-up drops a peer's latest address, so eviction ties occur in any case and are resolved by
+/// the `e:` / `h:` choice witnesses.
 fn gen_file(rng: &mut Rng, case: &mut Case, peers: u64, wf: bool, ties: bool) -> String {
     let np = rng.range(1, (case.max_peers as u64 + 2).min(peers));
     let mut ids: Vec<u64> = (0..peers).collect();
@@ -1149,6 +1162,10 @@ fn main() {
             "flush 0 0", "tick 2", "add 1 i4:1,u:1,q,p:4", "flush 1 0", "load", "flush 1 1", "tick 100", "load",
             "cfg 3 2 50 1", "file 1=i4:1,u:1,q,p:1;4294967295;1;999999+i4:1,u:2,q,p:1;4294967294;0;999997+i4:1,t:2,p:1;5;4294967295;999995", "load", "lupd i4:1,u:2,q,p:1 1",
             "tick 2", "add 0 i4:1,u:1,q,p:1", "flush 0 0", "load", "corrupt 2", "load", "flush 0 1", "load",
+            // eviction tie inside the flush's own load_cache_data (peers 0 and 5 equally old, peer 5 also in memory):
+            // the implementation may drop either one before the merge; both outcomes are legal (found by thorough seed 1)
+            "cfg 1 6 20 1", "tick 2", "add 0 i4:0,t:1,w,p:5", "file 0=i4:0,t:1,p:0;5;4;1000001|5=i4:1,t:1,p:5;7;7;1000001", "flush 0 1", "load",
+            "cfg 1 6 20 1", "tick 2", "add 0 i4:0,t:1,w,p:5", "file 0=i4:0,t:1,p:0;5;4;1000001|5=i4:1,t:1,p:5;7;7;1000001", "flush 0 0", "load",
             "cfg 50 6 86400 3", "race 1 3 40",
         ];
         let mut budget = args.n as i64;
